@@ -500,9 +500,7 @@ def synthesize(update_working_block=True, merge_io_vectors=True, block=None):
 
     block_out = PostSynthBlock()
     # resulting block should only have one of a restricted set of net ops
-    block_out.legal_ops = set('~&|^nrwm@')
-    if merge_io_vectors:
-        block_out.legal_ops.update(set('cs'))
+    block_out.legal_ops = set('~&|^nrwcsm@')  # c and s re-assemble memory ports (and merged io)
     wirevector_map = {}  # map from (vector,index) -> new_wire
 
     with set_working_block(block_out, no_sanity_check=True):
